@@ -233,6 +233,14 @@ def build(case):
     if case["kind"] == "explicit":
         lats, lons = case["lats"], case["lons"]
         S = np.array(case["S"], dtype=float)
+        # the same matrix in another memory layout / as a strided view (chosen by the case content: deterministic)
+        lay = case.get("layout") or ("C", "F", "C", "view", "C")[int(np.abs(S).sum() * 8 + S.shape[0]) % 5]
+        if lay == "F":
+            S = np.asfortranarray(S)
+        elif lay == "view":
+            big = np.zeros((S.shape[0], 2 * S.shape[1]))
+            big[:, ::2] = S
+            S = big[:, ::2]
         times = np.arange(3.)
         if case["cls"] == "ClimateNetwork":
             grid = GeoGrid(times, np.array(lats, float), np.array(lons, float), 3)
